@@ -125,20 +125,33 @@ def random_net(seed):
     return wires, leaves, ins
 
 
-def build_net(name, order, late=0):
-    """instantiate leaves in the given order; the last `late` leaves are added after getSimulator()"""
+def own_leaves(obj):
+    """the leaves of the hierarchy by a walk of our own (the oracle must not share Logic.allLeaves with the simulator)"""
+    out = []
+    for c in obj.children.values():
+        if c.children:
+            out.extend(own_leaves(c))
+        else:
+            out.append(c)
+    return out
+
+
+def build_net(name, order, late=0, nest=False):
+    """instantiate leaves in the given order; the last `late` leaves are added after getSimulator().
+    nest: the leaves live two levels down, inside structural containers, instead of directly under the system"""
     wires, leaves, ins = NETS[name]
     s = py4hw.HWSystem()
     W = {n: s.wire(n, w) for n, w in wires.items()}
+    parent = py4hw.Logic(py4hw.Logic(s, 'unit'), 'stage') if nest else s
     first = order[:len(order) - late] if late else order
     for i in first:
-        leaves[i][1](s, W)
-    return s, W, [leaves[i] for i in order[len(first):]], ins
+        leaves[i][1](parent, W)
+    return s, W, [(leaves[i][0], (lambda s_, W_, c=leaves[i][1]: c(parent, W_))) for i in order[len(first):]], ins
 
 
-def run_net(name, order, late=0, values=None, rec=None):
+def run_net(name, order, late=0, values=None, rec=None, nest=False):
     with quiet():
-        s, W, rest, ins = build_net(name, order, late)
+        s, W, rest, ins = build_net(name, order, late, nest)
     vars_ = {}
 
     def poke(tag):
@@ -184,7 +197,7 @@ def fixpoint_conds(s):
     """re-execute every stateless propagate() on the current wire values; returns list of
     (leaf path, z3 cond 'some output differs from the recomputed value')"""
     conds = []
-    for leaf in s.allLeaves():
+    for leaf in own_leaves(s):
         if not leaf.isPropagatable():
             continue
         if isinstance(leaf, (Latch,)) or type(leaf).__name__ == 'AsynchronousMemory':
@@ -205,16 +218,17 @@ def fixpoint_conds(s):
 
 def order_task(p, cfg, rec):
     name, order, late = cfg['net'], cfg['order'], cfg.get('late', 0)
+    nest = cfg.get('nest', False)
     n = len(NETS[name][1])
     base, vars_ = run_net(name, list(range(n)), 0, rec=rec)
-    snaps, v2 = run_net(name, order, late, rec=rec)
+    snaps, v2 = run_net(name, order, late, rec=rec, nest=nest)
     vars_.update(v2)
     bmap = {lab: vals for lab, vals, _s, _sim in base}
 
     def concrete_fix(values):
-        sn, _ = run_net(name, order, late, values=values)
+        sn, _ = run_net(name, order, late, values=values, nest=nest)
         for lab, vals, s, sim in sn:
-            for leaf in s.allLeaves():
+            for leaf in own_leaves(s):
                 if leaf.isPropagatable() and not isinstance(leaf, Latch):
                     outs = [q.wire for q in leaf.outPorts]
                     old = [w.value for w in outs]
@@ -228,7 +242,7 @@ def order_task(p, cfg, rec):
 
     def concrete_cmp(values):
         a, _ = run_net(name, list(range(n)), 0, values=values)
-        b, _ = run_net(name, order, late, values=values)
+        b, _ = run_net(name, order, late, values=values, nest=nest)
         am = {lab: vals for lab, vals, _s, _sim in a}
         for lab, vals, _s, _sim in b:
             for k in vals:
@@ -553,6 +567,10 @@ def tasks_for(tier):
             for late in (1, 2):
                 tasks.append(('net %s order %s late%d' % (name, ''.join(map(str, perm)), late), order_task,
                               {'net': name, 'order': list(perm), 'late': late}))
+            # the same with all leaves two levels down inside structural containers (late ones are added there too)
+            tasks.append(('net %s order %s nested' % (name, ''.join(map(str, perm))), order_task, {'net': name, 'order': list(perm), 'nest': True}))
+            tasks.append(('net %s order %s nested late1' % (name, ''.join(map(str, perm))), order_task,
+                          {'net': name, 'order': list(perm), 'late': 1, 'nest': True}))
     for bname in lib_blocks():
         k = (4 if quick else 60) if bname != 'FPAdder_SP' else (2 if quick else 12)
         for seed in range(1, k + 1):
